@@ -1,5 +1,6 @@
 import GeoVerif.Props.C04
 import GeoVerif.Props.C07
+import GeoVerif.Props.C08
 import GeoVerif.Props.C13
 import GeoVerif.Props.C16
 import GeoVerif.Props.C17
